@@ -30,7 +30,7 @@ ANCHORS = [
 ]
 REQUIRED = ["calls:plugin", "calls:unplug", "calls:post_update", "walks", "placed_on_free_station", "enqueued", "admitted_from_queue",
             "departed_while_waiting", "early_departures", "late_unplug_of_early_leaver", "runs_completed", "replays_compared", "xproc_runs_compared", "energy_ledgers_checked",
-            "arrivals_delivered_in_the_legacy_two_argument_form", "early_option_given_as:np", "early_option_given_as:int", "early_option_given_as:attr", "regime:early-on", "regime:early-off", "regime:more-sessions-than-stations", "regime:simultaneous-departure-connected-and-waiting",
+            "arrivals_delivered_in_the_legacy_two_argument_form", "departures_of_waiting_cars_naming_a_registered_station", "runs_with_cars_connected_by_hand_before_the_run", "early_option_given_as:np", "early_option_given_as:int", "early_option_given_as:attr", "regime:early-on", "regime:early-off", "regime:more-sessions-than-stations", "regime:simultaneous-departure-connected-and-waiting",
             "distinct_station_choices"]
 BUDGET_S = {"quick": 240, "thorough": 3000}
 
@@ -68,7 +68,8 @@ def gen_history(rng):
     return {"period": rng.choice([1, 5, 15]), "network": {"stations": stations, "constraints": cons, "tol": None},
             "sessions": sessions, "recompute": [], "scheduler": sd, "np_seed": 0, "early": rng.random() < 0.55,
             "early_as": rng.choice(["bool", "bool", "np", "int", "attr"]), "verbose": rng.random() < 0.3,
-            "legacy_plugin": rng.random() < 0.12}
+            "legacy_plugin": rng.random() < 0.12, "never_none_unplug": rng.random() < 0.12,
+            "hold_back": ([s_["id"] for s_ in sessions if s_["arrival"] == 0][:2] if rng.random() < 0.12 else [])}
 
 
 def cases(seed, tier):
@@ -149,6 +150,17 @@ def monitored_run(d, rseed, obs, judge=True):
         net.plugin = _legacy
         if obs is not None:
             obs.ev("arrivals_delivered_in_the_legacy_two_argument_form")
+    if d.get("never_none_unplug"):
+        # a caller that never passes None as station id: departures of cars that are still waiting name a registered station
+        _orig_unplug = net.unplug
+        _st0 = list(net.station_ids)
+
+        def _unplug(station_id, session_id=None):
+            return _orig_unplug(station_id if station_id is not None else _st0[0], session_id)
+
+        net.unplug = _unplug
+        if obs is not None:
+            obs.ev("departures_of_waiting_cars_naming_a_registered_station")
     if rseed % 5 == 0:
         from vlib.monitors import poke
         poke(net, sim)
@@ -355,6 +367,18 @@ def monitored_run(d, rseed, obs, judge=True):
     for w in wraps:
         w.install()
     exc = None
+    if d.get("hold_back"):
+        # cars that are already there when the simulation begins: connected by hand through the public network.plugin(), their
+        # departures queued as explicit UnplugEvents (no PluginEvent ever passes through the simulator for them)
+        from acnportal.acnsim.events import UnplugEvent
+        with warnings.catch_warnings():
+            warnings.simplefilter("ignore")
+            for e_ in evs:
+                if e_.session_id in d["hold_back"]:
+                    net.plugin(e_)
+                    sim.event_queue.add_event(UnplugEvent(e_.departure, e_))
+        if obs is not None:
+            obs.ev("runs_with_cars_connected_by_hand_before_the_run")
     try:
         with warnings.catch_warnings():
             warnings.simplefilter("ignore")
@@ -365,6 +389,7 @@ def monitored_run(d, rseed, obs, judge=True):
         for w in reversed(wraps):
             w.remove()
     sim._verif_posts = posts["n"]
+    sim._verif_evs = list(evs)
     return sim, sh, log, exc
 
 
@@ -440,20 +465,24 @@ def run_case(case, obs):
     sids = {s["id"] for s in d["sessions"]}
     if sh.arrived != sids or sh.gone != sids:
         obs.violate("session_never_arrived_or_never_left", f"arrived {sorted(sh.arrived)} gone {sorted(sh.gone)} expected {sorted(sids)}", **wit)
-    if set(sim.ev_history) != sids:
-        obs.violate("ev_history", f"{sorted(sim.ev_history)} vs {sorted(sids)}", **wit)
+    by_hand = set(d.get("hold_back") or [])  # connected by hand before the run: never seen by the simulator as arrivals
+    if set(sim.ev_history) != sids - by_hand:
+        obs.violate("ev_history", f"{sorted(sim.ev_history)} vs {sorted(sids - by_hand)}", **wit)
+    all_evs = dict(sim.ev_history)
+    for e_ in getattr(sim, "_verif_evs", []):
+        all_evs.setdefault(e_.session_id, e_)
     # a session that never got a station received no energy
     ever = {e[2] for e in log if e[1] in ("place", "admit")}
     for sid in sids - ever:
-        if sim.ev_history[sid].energy_delivered != 0:
-            obs.violate("never_placed_session_got_energy", f"{sid}: {sim.ev_history[sid].energy_delivered} kWh", **wit)
+        if sid in all_evs and all_evs[sid].energy_delivered != 0:
+            obs.violate("never_placed_session_got_energy", f"{sid}: {all_evs[sid].energy_delivered} kWh", **wit)
     # the end-of-period hook ran exactly once in every simulated period (early departures are decided there)
     if sim._verif_posts != sim.iteration:
         obs.violate("post_update_not_once_per_period", f"post_charging_update ran {sim._verif_posts} times in {sim.iteration} periods", **wit)
     # aggregate energy ledger: what the sessions received is what the stations recorded (whoever sat where)
     V = [s_["voltage"] for s_ in d["network"]["stations"]]
     rec = sum(float(sim.charging_rates[i, :sim.iteration].sum()) * V[i] for i in range(len(V))) * d["period"] / 60.0 / 1000.0
-    got = sum(float(ev.energy_delivered) for ev in sim.ev_history.values())
+    got = sum(float(ev.energy_delivered) for ev in all_evs.values())
     obs.ev("energy_ledgers_checked")
     if not abs(rec - got) <= 1e-9 * max(1.0, abs(got)):
         obs.violate("energy_ledger", f"sessions received {got!r} kWh, recorded rates integrate to {rec!r} kWh", **wit)
